@@ -296,6 +296,17 @@ fn main() {
         let r = vpcore::load_replay(path);
         let p: Program = vpcore::serde_json::from_value(r["program"].clone()).unwrap_or_else(|e| vpcore::machinery_error(&format!("bad replay: {e}")));
         let pk = r["packing"].as_str().unwrap_or("default").to_string();
+        if let Some(field) = r["field"].as_str() {
+            match field {
+                "bb4" => bb4::replay(&p, &pk, &report),
+                "bb5" => bb5::replay(&p, &pk, &report),
+                "kb5" => kb5::replay(&p, &pk, &report),
+                "gl2" => gl2::replay(&p, &pk, &report),
+                other => vpcore::machinery_error(&format!("bad replay: unknown field {other}")),
+            }
+            let cov = json!({"states":1,"transitions":1,"traces_validated_against_impl":1,"samples":[p.show()],"replay":true});
+            finish(&ctx, cov, vec![], &report);
+        }
         let packing = packs.iter().find(|(n, _)| *n == pk).map(|(_, p)| p.clone()).unwrap_or_default();
         println!("replaying: {} [{pk}]", p.show());
         if let Ok(m) = materialize::<F, F>(&p, &cs) {
@@ -319,6 +330,9 @@ fn main() {
         finish(&ctx, cov, vec![], &report);
     }
 
+    // budget fractions: D = 1 families, derived programs, configuration sweep, Horner shape sweep;
+    // the rest (up to 0.98) belongs to the extension-field pass
+    let (cap_fam, cap_derived, cap_sweep, cap_shapes) = if ctx.quick() { (0.60, 0.66, 0.72, 0.74) } else { (0.66, 0.72, 0.78, 0.80) };
     let mut fams = c10_families(!ctx.quick());
     if let Some(f) = ctx.opt("family") {
         fams = c10_families(true).into_iter().filter(|x| x.name == f).collect();
@@ -363,7 +377,7 @@ fn main() {
         let stats = Stats::default();
         let seen_prune = SeenSet::default();
         let per_class_proved = &per_class_proved;
-        let stop_at = (0.80 * (fi as f64 + 1.0) / fams.len() as f64 + 0.02).min(0.82);
+        let stop_at = ((cap_fam - 0.02) * (fi as f64 + 1.0) / fams.len() as f64 + 0.02).min(cap_fam);
         let t0 = ctx.elapsed_s();
         explore::<F, F>(fam, &cs, &ctx, stop_at, &seen_keys, &seen_prune, &stats, &|_p, _m| {}, &|p, _m| {
             // a budgeted number of expected-to-fail programs is proven anyway: it validates the
@@ -473,7 +487,7 @@ fn main() {
             assert_split: None,
         };
         let (s2, p2, st2) = (SeenSet::default(), SeenSet::default(), Stats::default());
-        explore::<F, F>(&base, &cs, &ctx, 0.9, &s2, &p2, &st2, &|_p, _m| {}, &|p, _m| {
+        explore::<F, F>(&base, &cs, &ctx, cap_derived, &s2, &p2, &st2, &|_p, _m| {}, &|p, _m| {
             let Some(q) = vpe1::prog::duplicate_with_aliases(p) else { return };
             if let Some(o) = check_program(&q, &cs, &packs[0].1, false) {
                 derived_done.fetch_add(1, Ordering::Relaxed);
@@ -491,7 +505,7 @@ fn main() {
     let sweep_done = AtomicU64::new(0);
     let sweep: Vec<(usize, usize)> = (0..reps.len()).flat_map(|i| (1..packs.len()).map(move |j| (i, j))).collect();
     sweep.par_iter().for_each(|&(i, j)| {
-        if ctx.used() > 0.97 {
+        if ctx.used() > cap_sweep {
             return;
         }
         let (pk, packing) = &packs[j];
@@ -544,7 +558,7 @@ fn main() {
     let shape_jobs: Vec<(usize, usize)> = (0..shapes.len()).flat_map(|i| (0..shape_packs.len()).map(move |j| (i, j))).collect();
     let shape_done = AtomicU64::new(0);
     shape_jobs.par_iter().for_each(|&(i, j)| {
-        if ctx.used() > 0.985 {
+        if ctx.used() > cap_shapes {
             return;
         }
         let (pk, packing) = &shape_packs[j];
@@ -558,14 +572,49 @@ fn main() {
     });
     let shapes_complete = shape_done.load(Ordering::Relaxed) as usize == shape_jobs.len();
 
+    // extension-field pass: the remaining window is shared equally between the fields still to run
+    let xfams = ext_families(!ctx.quick());
+    let only_field = ctx.opt("field").map(|s| s.to_string());
+    type Pass = fn(&Ctx, &Report, &[Family], f64) -> Value;
+    let passes: Vec<(&str, Pass)> = vec![("bb5", bb5::run_pass as Pass), ("bb4", bb4::run_pass as Pass), ("kb5", kb5::run_pass as Pass), ("gl2", gl2::run_pass as Pass)]
+        .into_iter()
+        .filter(|(t, _)| only_field.as_deref().is_none_or(|f| f == *t))
+        .collect();
+    let mut ext_cov = vec![];
+    let ext_end = 0.98f64;
+    for (i, (_tag, pass)) in passes.iter().enumerate() {
+        let now = ctx.used();
+        let stop_at = now + (ext_end - now).max(0.0) / (passes.len() - i) as f64;
+        ext_cov.push(pass(&ctx, &report, &xfams, stop_at));
+    }
+    let n = |v: &Value, k: &str| v[k].as_u64().unwrap_or(0);
+    let ext_states: u64 = ext_cov.iter().map(|c| n(c, "states")).sum();
+    let ext_transitions: u64 = ext_cov.iter().map(|c| n(c, "transitions")).sum();
+    let ext_runs: u64 = ext_cov.iter().map(|c| n(c, "proved_and_verified_runs")).sum();
+    let ext_exhaustive = ext_cov.iter().all(|c| c["exhaustive"].as_bool().unwrap_or(false));
+    {
+        let mut s = samples.lock().unwrap();
+        for c in &ext_cov {
+            if let Some(x) = c["samples"].as_array().and_then(|a| a.first()) {
+                s.push(x.clone());
+            }
+        }
+    }
+
     let cov = json!({
-        "states": tc,
-        "transitions": th,
-        "traces_validated_against_impl": proved.load(Ordering::Relaxed) + sweep_done.load(Ordering::Relaxed),
+        "states": tc + ext_states,
+        "transitions": th + ext_transitions,
+        "traces_validated_against_impl": proved.load(Ordering::Relaxed) + sweep_done.load(Ordering::Relaxed) + ext_runs,
         "samples": *samples.lock().unwrap(),
         "state_definition": "a state is a builder program identified by the H1 snapshot; for every state with a satisfying input over the alphabet the real runner, prover and verifier are executed",
         "families": fam_reports,
-        "exhaustive": all_exhaustive && sweep_complete && shapes_complete,
+        "exhaustive": all_exhaustive && sweep_complete && shapes_complete && ext_exhaustive,
+        "extension_field_pass": {
+            "fields": ext_cov,
+            "per_field_counts": ext_cov.iter().map(|c| json!({"field": c["field"], "programs": c["states"], "proved_and_verified_runs": c["proved_and_verified_runs"],
+                "all_coefficients_nonzero": c["runs_with_every_input_coefficient_nonzero"], "exhaustive": c["exhaustive"]})).collect::<Vec<_>>(),
+            "exhaustive": ext_exhaustive,
+        },
         "derived_alias_duplicated_programs_checked": derived_done.load(Ordering::Relaxed),
         "horner_shape_sweep": {"chain_lengths": format!("1..={max_len}"), "surrounding_ops": ["none", "one sub after", "one add before + one sub after"], "alu_lanes": lanes_set, "packing_factors": k_set,
             "proved_and_verified": shape_done.load(Ordering::Relaxed), "planned": shape_jobs.len()},
@@ -574,10 +623,11 @@ fn main() {
         "outcome_histogram": histo.to_json(),
         "raw_failures": raw.load(Ordering::Relaxed),
         "known_class_programs_whose_honest_proof_verified_anyway": class_passed.load(Ordering::Relaxed),
-        "field": "BabyBear, D=1",
+        "field": "BabyBear D=1 (full families, packing sweeps); BabyBear^4, BabyBear^5, KoalaBear^5 (trinomial), Goldilocks^2 (reduced program space, see extension_field_pass)",
     });
     finish(&ctx, cov, vec![
         "satisfying inputs are decided by the reference semantics (vpe1::prog::ref_eval)".into(),
         "one satisfying input per program (the first over a 5-value alphabet)".into(),
+        "extension-field pass: known structural classes are decided on the BabyBear D=1 twin of the program (same op list up to constant values, checked); test-grade FRI parameters".into(),
     ], &report);
 }
